@@ -99,8 +99,8 @@ def snap1(h: Histogram1D) -> dict:
     bins = np.asarray(h.bins).reshape(-1, 2)
     return {
         "bins": [[rs(l), rs(r)] for l, r in bins],
-        "freq": [rs(x) for x in h.frequencies],
-        "err2": [rs(x) for x in h.errors2],
+        "freq": [nrs(x) for x in h.frequencies],
+        "err2": [nrs(x) for x in h.errors2],
         "under": nrs(h.underflow), "over": nrs(h.overflow), "inner": nrs(h.inner_missed),
         "keep": bool(h.keep_missed), "dtype": str(h.dtype), "total": nrs(h.total),
         "adaptive": bool(h.is_adaptive()), "binning": binning_meta(h.binning), "stats": snap_stats(h),
